@@ -172,20 +172,38 @@ func runAPIWord(t *testing.T, rep *Report, seed uint64, widx int, cur string) {
 			switch r := rng.Intn(100); {
 			case r < 8:
 				lifecycle = true
-				call("Start", func() {
-					if err := subj.R.Start(); err == nil {
+				name := "Start"
+				if rng.Chance(25) {
+					subj.Tr.FailRun = true
+					name = "Start (transport cannot listen)"
+					rep.Hit("start-with-failing-transport")
+				}
+				call(name, func() {
+					subj.R.Start()
+					// the code hands the transport's error back AFTER it has started the node: whether the node
+					// runs is what Status() says, not what Start() returned
+					if subj.R.Status().State != raft.Shutdown {
 						started = true
 						subj.Up = true
 					}
 				})
+				subj.Tr.FailRun = false
 			case r < 13:
 				lifecycle = true
-				call("Restart", func() {
-					if err := subj.R.Restart(); err == nil {
+				name := "Restart"
+				if rng.Chance(25) {
+					subj.Tr.FailRun = true
+					name = "Restart (transport cannot listen)"
+					rep.Hit("start-with-failing-transport")
+				}
+				call(name, func() {
+					subj.R.Restart()
+					if subj.R.Status().State != raft.Shutdown {
 						started = true
 						subj.Up = true
 					}
 				})
+				subj.Tr.FailRun = false
 			case r < 21:
 				lifecycle = true
 				call("Stop", func() { subj.R.Stop(); started = false })
